@@ -906,8 +906,12 @@ def pickup(ctx):
     g = P.func('Pickup._get_value')
     s = P.func('Pickup._set_value')
     res.saw(g), res.saw(s)
+    # 'conic' may be read as geometry.k or, so that a flat source (which has
+    # no conic attribute unless one was set) reads 0, as
+    # getattr(geometry, 'k', 0)
     table = {'radius': ('geometry.radius', 'set_radius'),
-             'conic': ('geometry.k', 'set_conic'),
+             'conic': (('geometry.k', "getattr(surface.geometry, 'k', 0)"),
+                       'set_conic'),
              'thickness': ('get_thickness(self.source_surface_idx)',
                            'set_thickness')}
 
@@ -922,7 +926,9 @@ def pickup(ctx):
         return out
     ga, sa = arms(g), arms(s)
     for kind, (rd, setter) in table.items():
-        okg = kind in ga and rd in ga[kind]
+        rds = rd if isinstance(rd, tuple) else (rd,)
+        okg = kind in ga and any(r_ in ga[kind] for r_ in rds)
+        rd = rds[0]
         oks = kind in sa and f'{setter}(value, self.target_surface_idx)' in sa[kind]
         if okg and oks:
             res.ok(f"pickup '{kind}': reads {rd}, writes {setter}(value, target)")
@@ -1374,5 +1380,108 @@ META['declined'] = [
     for _d in META['declined']]
 
 
-RULES = [insertion, derived_sync_rule, arg_wiring_rule, init_stores, scalar_conv, placement, thickness_edit, media_chain, one_stop,
+def append_default(ctx):
+    """add_surface(new_surface=s) without an index appends (docstring); the
+    list insert must never see index None, and the stop flags of the existing
+    surfaces must not be cleared by a call that then fails"""
+    P = ctx.P
+    res = Result('APPEND-DEFAULT', 'SurfaceGroup.add_surface gives index a '
+                 'value on every path that reaches surfaces.insert')
+    f = P.func('SurfaceGroup.add_surface')
+    res.saw(f)
+    from ..paths import paths, annotate, call_attr
+    bad = None
+    for p in annotate(P, f, paths(f)):
+        if p.exit == 'raise':
+            continue
+        # decisions on `index is None` along the path
+        idx_none = None
+        assigned = False
+        for e in p.events:
+            if e.kind == 'branch' and unparse(e.node) == 'index is None':
+                idx_none = bool(e.extra)
+            if e.kind == 'store' and isinstance(e.node, ast.Name) and \
+                    e.node.id == 'index':
+                assigned = True
+        if idx_none is True and not assigned:
+            bad = p
+        if idx_none is None and not assigned:
+            # a path that never looked at index: ready-made surface branch
+            bad = bad or p
+    if bad is None:
+        res.ok('index is set (or checked) before surfaces.insert on every '
+               'path')
+    else:
+        res.fail(ctx.finding(
+            'APPEND-DEFAULT', f, f.node,
+            'add_surface(new_surface=s) without index reaches '
+            'self.surfaces.insert(None, s): TypeError, after the stop flag '
+            'of every existing surface was already cleared when s.is_stop',
+            construct='insert with index None', path=bad.describe()))
+    return res
+
+
+def geometry_attr(ctx):
+    """'the conic of a flat surface is 0': every surface has a radius and a
+    conic in the prescription tables (SurfaceGroup.radii / conic), but not
+    every geometry class stores them; code of the editing API that reads
+    surface.geometry.k / .radius must work for every geometry class that the
+    factory can put there (guarded by getattr, try / except AttributeError,
+    or an isinstance test)."""
+    P = ctx.P
+    res = Result('GEOMETRY-ATTR', 'reads of geometry.k / geometry.radius in '
+                 'the editing API are defined for every geometry class')
+    geos = [cn for cn in P.classes if 'BaseGeometry' in P.mro(cn) and
+            cn not in ('BaseGeometry', 'NewtonRaphsonGeometry')]
+    has = {}
+    for cn in geos:
+        attrs = set()
+        for c in P.mro(cn):
+            init = P.classes[c].methods.get('__init__')
+            if init is None:
+                continue
+            for st in ast.walk(init.node):
+                if isinstance(st, ast.Assign):
+                    for t in st.targets:
+                        if isinstance(t, ast.Attribute) and \
+                                unparse(t.value) == 'self':
+                            attrs.add(t.attr)
+        has[cn] = attrs
+    n = 0
+    for f in P.all_funcs():
+        if not (f.module.endswith(('pickup.py', 'optic.py',
+                                   'surface_group.py', 'solves.py')) or
+                '/variable/' in f.module or '/tolerancing/' in f.module):
+            continue
+        src = unparse(f.node, 1000000)
+        if 'isinstance(' in src and 'geometry' in src:
+            continue                    # type-dispatched by the function
+        tries = [t for t in ast.walk(f.node) if isinstance(t, ast.Try) and
+                 any(h.type is None or 'AttributeError' in unparse(h.type) or
+                     'Exception' in unparse(h.type) for h in t.handlers)]
+        guarded_nodes = {id(x) for t in tries for b in t.body
+                         for x in ast.walk(b)}
+        for x in ast.walk(f.node):
+            if isinstance(x, ast.Attribute) and x.attr in ('k', 'radius') \
+                    and isinstance(x.ctx, ast.Load) and \
+                    isinstance(x.value, ast.Attribute) and \
+                    x.value.attr == 'geometry':
+                n += 1
+                missing = sorted(cn for cn in geos if x.attr not in has[cn])
+                if missing and id(x) not in guarded_nodes:
+                    res.saw(f)
+                    res.fail(ctx.finding(
+                        'GEOMETRY-ATTR', f, x,
+                        f'{f.qual} reads {unparse(x)} unguarded, but '
+                        f'{missing} have no attribute {x.attr!r}: a conic '
+                        f'pickup / query whose source surface is flat raises '
+                        f'AttributeError although the conic of a flat '
+                        f'surface is 0 everywhere else',
+                        construct=f'{f.qual} reads geometry.{x.attr}'))
+    res.ok(f'{n} reads of geometry.k / geometry.radius examined over '
+           f'{len(geos)} geometry classes')
+    return res
+
+
+RULES = [geometry_attr, append_default, insertion, derived_sync_rule, arg_wiring_rule, init_stores, scalar_conv, placement, thickness_edit, media_chain, one_stop,
          setter_writes, pickup, solve]
